@@ -16,7 +16,7 @@ LEVEL = "exploration"
 RULE = ("E1+E3: ('sig', curve, hash, encoding, canonise) = full product of 17 curves x {SHA-1,224,256,384,512} x {string, strings, DER} x canonise "
         "{no, yes}: a library signature made with seam entropy and a deterministic one verify in the library and in OpenSSL (dgst -verify); an "
         "OpenSSL signature verifies in the library; sign_deterministic == (r, s) of the RFC 6979 reference (pinned to RFC 6979 A.2.5 vectors); "
-        "verification under another key fails; ('pre', curve, loader, lazy) keys obtained from every loader verify after precompute(); ('tamper', curve, encoding, what, bit) EVERY single-bit change of an 8-byte message and of the "
+        "verification under another key fails; ('pre', curve, loader, lazy) keys obtained from every loader verify after precompute(); ('rs', curve, class) signatures whose r / s fall into edge classes (nonce 1 and n-1, r or s with one / two leading zero bytes, top bit set), found by deterministic search with the reference curve, through every encoding; ('tamper', curve, encoding, what, bit) EVERY single-bit change of an 8-byte message and of the "
         "encoded signature (all bits on 5 curves quick / 17 thorough, one bit per byte on the rest) must raise BadSignatureError; ('range', curve, "
         "encoding, r-class, s-class) r, s in {0, n, n+1, 2^k, valid} must be rejected; ('malformed', curve, encoding, i) truncated / extended "
         "encodings raise the documented errors. Distinct = case tuples.")
@@ -96,6 +96,9 @@ def cases(ctx):
                 for canon in (False, True):
                     yield ("sig", ci, h, enc, canon)
     for ci in range(len(STD)):
+        for cls in RS_CLASSES:
+            yield ("rs", ci, cls)
+    for ci in range(len(STD)):
         for loader in ("generated", "from_string", "from_der", "from_pem", "from_public_point"):
             for lazy in (True, False):
                 yield ("pre", ci, loader, lazy)
@@ -114,6 +117,42 @@ def cases(ctx):
                         yield ("range", ci, enc, rc, sc)
             for i in range(8):
                 yield ("malformed", ci, enc, i)
+
+
+RS_CLASSES = ["k=1", "k=n-1", "r-leading-00", "s-leading-00", "r-top-bit", "s-top-bit", "r-leading-0000", "s-small"]
+_RS = {}
+
+
+def rs_nonce(ctx, cur, cls, d, e):
+    """Deterministic search for a nonce k whose signature (r, s) falls into the class (reference curve, incremental addition)."""
+    key = (cur.name, cls)
+    if key in _RS:
+        return _RS[key]
+    cv = ref_curve(cur)
+    n = cv.n
+    ln = (n.bit_length() + 7) // 8
+    if cls == "k=1":
+        k = 1
+    elif cls == "k=n-1":
+        k = n - 1
+    else:
+        k0 = 2 + ctx.symint("c18-k0-%s" % cur.name, 1 << 32)
+        P = cv.mul(k0, cv.g)
+        k = None
+        for i in range(300000):
+            kk = k0 + i
+            r = P[0] % n
+            if r:
+                sv = pow(kk, -1, n) * (e + r * d) % n
+                ok = {"r-leading-00": r >> (8 * ln - 8) == 0, "s-leading-00": sv >> (8 * ln - 8) == 0,
+                      "r-top-bit": (r >> (8 * ln - 1)) & 1 == 1, "s-top-bit": (sv >> (8 * ln - 1)) & 1 == 1,
+                      "r-leading-0000": r >> (8 * ln - 16) == 0, "s-small": sv >> (8 * ln - 14) == 0}[cls]
+                if ok and sv:
+                    k = kk
+                    break
+            P = cv.add(P, cv.g)
+    _RS[key] = k
+    return k
 
 
 def verify_outcome(vk, sig, msg, hf, dec):
@@ -186,6 +225,35 @@ def run_case(ctx, case):
                 return o.viol("verify|accepts-%s" % label, "%s: verification with %s gave %r" % (what, label, res))
         return o
     hf = hashlib.sha256
+    if kind == "rs":
+        _, ci, cls = case
+        e = R.digest_int(hf(MSG).digest(), n)
+        k = rs_nonce(ctx, cur, cls, d, e)
+        if k is None:
+            return Outcome("no-nonce-of-this-class-found", False)
+        er, es = R.sign_with_k(cv, d, e, k)
+        for enc in ENCS:
+            encf, decf = enc_fns(enc, False)
+            what = "%s %s signature class %s" % (cur.name, enc, cls)
+            try:
+                sig = sk.sign(MSG, hashfunc=hf, sigencode=encf, k=k)
+            except Exception as ex:
+                return o.viol("rs|sign-raises|%s|%s" % (cls, type(ex).__name__), "%s: sign(k=...) raised %r" % (what, ex))
+            if rs_of(sig, enc, n) != (er, es):
+                return o.viol("rs|sign-differs|%s" % cls, "%s: signature with a given nonce differs from the reference ECDSA" % what)
+            if enc == "der" and sig != D.ecdsa_sig(er, es):
+                return o.viol("rs|der-bytes|%s" % cls, "%s: DER encoding differs from the reference (leading zero / sign byte handling)" % what)
+            if enc == "string" and len(sig) != 2 * ((n.bit_length() + 7) // 8):
+                return o.viol("rs|string-length|%s" % cls, "%s: fixed-length encoding has %d bytes" % (what, len(sig)))
+            res = verify_outcome(vk, sig, MSG, hf, decf)
+            if res != "ok":
+                return o.viol("rs|verify|%s|%s" % (cls, enc), "%s: library does not verify its own signature: %r" % (what, res))
+            res = verify_outcome(vk, from_rs(er, es, enc, n), MSG, hf, decf)
+            if res != "ok":
+                return o.viol("rs|verify-reference|%s|%s" % (cls, enc), "%s: library does not verify the reference-encoded signature: %r" % (what, res))
+            if not ossl.verify(spki, "sha256", MSG, to_der_sig(sig, enc, n)):
+                return o.viol("rs|openssl|%s|%s" % (cls, enc), "%s: OpenSSL does not verify the signature" % what)
+        return o
     if kind == "pre":
         _, ci, loader, lazy = case
         base = sk.verifying_key
